@@ -6,10 +6,13 @@
      3 probe  run-time probes (np.shares_memory & co.) of the aliasing classes the extractor relies on
    spec_ok  = the property on what the implementation did (inputs unchanged, same result twice, bytes written
               unchanged; for a site: the checker accepts the extracted program);
-   model_ok = the observation equals what the model predicts; for a site: the harness's extraction equals the
-              program generated into Gen/C20.v from the same tree (Bridge/C20.v proves those safe). *)
+   model_ok = the observation equals what the model predicts; for a site: the extraction made in the observing
+              sub-process equals the one made through the translator's code path for the same tree, and that one is
+              safe.  (Corr does not import Gen/C20.v: case files are evaluated after the build lock is released, and a
+              concurrent run against another tree may have regenerated Gen/C20.v by then.  Gen/C20.v itself is proved
+              safe in Bridge/C20.v inside the lock — C20_source_tie.) *)
 From Coq Require Import ZArith List Bool Arith.
-From BNP Require Export Base.Prims Model.C20 Gen.C20.
+From BNP Require Export Base.Prims Model.C20.
 Import ListNotations.
 Open Scope Z_scope.
 
@@ -28,6 +31,8 @@ Record case := {
   k_w_got : list Z;
   k_np : Z;                   (* site: number of parameters and extracted program *)
   k_prog : list instr;
+  k_prog2 : list instr;       (* site: the same site extracted again through the translator's code path (translate/gen_c20.py)
+                                 in the harness's main process — what Gen/C20.v holds for this tree *)
   k_flags : list bool         (* probe: each expectation held *)
 }.
 
@@ -39,10 +44,6 @@ Definition spec_ok (c : case) : bool :=
   else if k_kind c =? 1 then observed_unchanged c && zlist_eqb (k_w_ref c) (k_w_got c)
   else if k_kind c =? 2 then safe_prog (Z.to_nat (k_np c)) (k_prog c)
   else forallb (fun b => b) (k_flags c).
-
-(* the program translate/gen_c20.py generated for this site from the same tree in this run (Gen/C20.v) *)
-Definition lookup_gen (sid : Z) : option (nat * list instr) :=
-  match find (fun e => Z.eqb (fst e) sid) gen_site_table with Some e => Some (snd e) | None => None end.
 
 Definition model_call_ok (c : case) : bool :=
   let tgt := Z.to_nat (k_target c) in
@@ -57,8 +58,5 @@ Definition model_ok (c : case) : bool :=
   if k_kind c =? 0 then model_call_ok c
   else if k_kind c =? 1 then observed_unchanged c && zlist_eqb (k_w_ref c) (k_w_got c)
   else if k_kind c =? 2 then
-    match lookup_gen (k_site c) with
-    | Some (n, p) => Nat.eqb n (Z.to_nat (k_np c)) && prog_eqb (k_prog c) p
-    | None => false
-    end
+    prog_eqb (k_prog c) (k_prog2 c) && safe_prog (Z.to_nat (k_np c)) (k_prog2 c)
   else forallb (fun b => b) (k_flags c).
